@@ -49,3 +49,34 @@
         let f = RtpsUdpTransportParticipantFactory::default();
         assert!(f.fragment_size() >= 8 && f.fragment_size() <= 65000);
     }
+
+    /// C06: sending to ANY locator never panics.  For every Locator (every kind incl. LOCATOR_KIND_UDP_V6 - which a remote
+    /// participant can announce in its discovery data -, every port, every address) UdpLocator::to_socket_addrs returns Ok
+    /// or Err and is_multicast returns; a UDPv4 locator maps to the IPv4 address in the last four address bytes and the low
+    /// 16 bits of the port.
+    /// @props C06
+    /// @kind proof
+    /// @tier quick
+    /// @fn <UdpLocator as ToSocketAddrs>::to_socket_addrs, UdpLocator::is_multicast
+    #[cfg_attr(kani, kani::proof)]
+    fn c06_udp_locator_to_socket_addrs_total() {
+        let kind: i32 = kani::any();
+        let port: u32 = kani::any();
+        let addr: [u8; 16] = kani::any();
+        let l = UdpLocator(Locator::new(kind, port, addr));
+        let r = l.to_socket_addrs();
+        if kind == LOCATOR_KIND_UDP_V4 {
+            match r {
+                Ok(mut it) => match it.next() {
+                    Some(SocketAddr::V4(a)) => {
+                        assert!(a.ip().octets() == [addr[12], addr[13], addr[14], addr[15]] && a.port() == port as u16, "UDPv4 locator maps to its address and port");
+                    }
+                    _ => assert!(false, "a UDPv4 locator gives one IPv4 socket address"),
+                },
+                Err(_) => assert!(false, "a UDPv4 locator is always convertible"),
+            }
+        }
+        let _m = l.is_multicast();
+        kani::cover!(kind == LOCATOR_KIND_UDP_V6);
+        kani::cover!(kind == LOCATOR_KIND_UDP_V4);
+    }
